@@ -262,7 +262,7 @@ func newGen() *gen {
 	}
 	// unknown keywords inside a schema: names that are not keywords (even case-insensitively) and not x-
 	unknown := []member{}
-	for i, n := range []string{"unknownKeyword", "a b", `a"b`, "é", "a\nb", "", "$comment", "const"} {
+	for i, n := range []string{"unknownKeyword", "a b", `a"b`, "é", "a\nb", "", "$comment", "const", "x", "X", "xy"} {
 		nc := 0
 		if i > 0 {
 			nc = 1
@@ -359,7 +359,7 @@ func newGen() *gen {
 	})
 	add("responses", []string{`{"200":{"description":"d"}}`, `{"default":{"description":"d"}}`, `{"600":{"description":"d"}}`}, func(skel map[string]interface{}) []member {
 		ms := extMembers()
-		for _, code := range []string{"default", "200", "404", "599", "100", "600"} {
+		for _, code := range []string{"default", "200", "404", "599", "100", "600", "040"} {
 			if _, has := skel[code]; !has {
 				ms = append(ms, member{code, sub("response", true)})
 			}
@@ -430,11 +430,22 @@ func newGen() *gen {
 		return ms
 	})
 	add("contact", []string{`{}`}, fixed(cat([]member{{"name", strAlts()}, {"url", str1()}, {"email", str1()}}, extMembers())...))
-	add("license", []string{`{"name":"n"}`}, fixed(cat([]member{{"url", str1()}}, extMembers())...))
+	// required strings may be empty (the meta-schema sets no minimum length): written as members that
+	// replace the value of the skeleton, at the price of one non-default choice
+	emptyReq := func(names ...string) []member {
+		var ms []member
+		for _, n := range names {
+			ms = append(ms, member{n, func(g *gen, b int) []alt {
+				return []alt{{"", 0}}
+			}})
+		}
+		return ms
+	}
+	add("license", []string{`{"name":"n"}`}, fixed(cat([]member{{"url", str1()}}, emptyReq("name"), extMembers())...))
 	add("info", []string{`{"title":"t","version":"1"}`}, fixed(cat([]member{
 		{"description", strAlts()}, {"termsOfService", str1()}, {"contact", sub("contact", false)}, {"license", sub("license", true)},
-	}, extMembers())...))
-	add("tag", []string{`{"name":"n"}`}, fixed(cat([]member{{"description", strAlts()}, {"externalDocs", sub("externalDocs", true)}}, extMembers())...))
+	}, emptyReq("title", "version"), extMembers())...))
+	add("tag", []string{`{"name":"n"}`}, fixed(cat([]member{{"description", strAlts()}, {"externalDocs", sub("externalDocs", true)}}, emptyReq("name"), extMembers())...))
 	add("swagger", []string{`{"swagger":"2.0","info":{"title":"t","version":"1"},"paths":{}}`}, fixed(cat([]member{
 		{"host", str1()}, {"basePath", constAlts("/v1")}, {"schemes", constAlts(arr("http"), arr("https", "ws"))},
 		{"consumes", strListAlts()}, {"produces", strListAlts()},
